@@ -1,4 +1,4 @@
-"""C20 - DTX behaviour."""
+"""C20 - DTX sends bounded runs of tiny packets when inactive and resumes at once."""
 from ..runner import Job
 
 W = 16
@@ -7,10 +7,43 @@ W = 16
 def jobs(tier):
     q = tier == "quick"
     return [
-        Job("c20_dtx", "flt-asan", "random", workers=W, cases=80 if q else 600, maxtime=60 if q else 500),
-        Job("c20_dtx", "flt-opt", "random", workers=W, cases=160 if q else 1500, maxtime=60 if q else 400, seed_salt=7),
+        # all oracles incl. ASan/UBSan/assertions and guard bytes
+        Job("c20_dtx", "flt-asan", "random", workers=W, cases=120 if q else 600, maxtime=60 if q else 500),
+        # the DTX clauses are timing/size/energy oracles: the optimised build buys schedule diversity (other seed stream)
+        Job("c20_dtx", "flt-opt", "random", workers=W, cases=240 if q else 1500, maxtime=60 if q else 400, seed_salt=7),
     ]
 
 
-PROP = dict(jobs=jobs, rule="TBD", required_labels={"any": {}}, assumptions=[])
-TEXT = dict(technique="TBD", level="TBD", note="TBD")
+PROP = dict(
+    jobs=jobs,
+    rule="cases = one encoder configuration (rate, channels, application, complexity biased to >= 7, DTX on/off, VBR/CVBR/CBR, frame duration 2.5..120 ms, "
+         "forced mode, signal hint, bandwidth, FEC, bitrate from the documented low-budget floor up to 256 kb/s or AUTO, ample or small buffer) and a schedule "
+         "burst/gap/burst[/gap/burst] with lengths 0..5 s (total <= 12 s) of one loud stationary signal family interrupted by exact digital silence on frame "
+         "boundaries; every packet's length and OPUS_GET_IN_DTX are recorded, two tree decoders run in lock-step (DTX packets as given / as losses). "
+         "Non-trivial = the 200 ms clause was evaluated on a gap (analysis detector, gap >= 200 ms + 2 frames), or a burst resumed out of a DTX run, or a "
+         "DTX run ended in a refresh packet; distinct = hash of (Fs, channels, duration, complexity, DTX, CBR flag, forced mode, bitrate bucket, segment lengths in frames).",
+    required_labels={"any": {
+        "c20_dtx/gap-200ms-checked": 120, "c20_dtx/dtx-refresh": 110, "c20_dtx/resume-from-dtx": 120, "c20_dtx/resume-checked": 300,
+        "c20_dtx/dtx-off": 100, "c20_dtx/detector:analysis": 220, "c20_dtx/detector:silk-or-none": 120, "c20_dtx/gap-silence-checked": 80,
+        "c20_dtx/recovery-checked": 55, "c20_dtx/long-frames": 180, "c20_dtx/mode:silk": 100, "c20_dtx/mode:hybrid": 45, "c20_dtx/mode:celt": 300,
+        "c20_dtx/bitrate-at-floor": 60, "c20_dtx/small-buffer": 40,
+    }},
+    assumptions=[
+        "A DTX packet is a packet of <= 2 bytes. Activity stops at a frame boundary t0 from which the input is exactly zero; the encoder's silence detector looks at the frame handed to opus_encode (not at its delay buffer), so the rule checked for the 200 ms clause is: some DTX packet starts at t with t - t0 < 200 ms + one frame duration (gap >= 200 ms + 2 frames, DTX on, complexity >= 7, Fs >= 16 kHz, float build). No lower bound is asserted (a burst the detector already judged inactive may legitimately enter DTX earlier).",
+        "Run length: consecutive DTX packets last less than 400 ms + one frame duration, in every configuration (generalised and SILK detector).",
+        "Budget floor (DESIGN C20): bitrate*T/8 >= 3 bytes, bitrate >= 2400 b/s and buffer >= 300 bytes/s for frames longer than 20 ms, buffer >= 3 bytes; the generator raises the bitrate until these hold and draws a separate class exactly at the floor.",
+        "Resume clause is asserted when the first frame of the burst is unmistakably active: frame rms >= 1/4 of the loudest frame so far (inside the encoder's 25 dB pseudo-SNR rule) and >= 0.001.",
+        "Known finding C20F1 (excluded by construction, replay replays/C20/c20_dtx.flt-asan-C20F1-silk-overrun-2-byte-packet.case): with VBR and a small buffer (seen up to 80 bytes) the SILK layer overruns and the encoder falls back to a 2-byte packet although DTX is off; small buffers are therefore drawn only with VBR off or when the SILK layer cannot be used.",
+        "Observation C20F2 (excluded by construction): SILK-only CBR at >= 150 kb/s can saturate the decoded signal (C04 territory); CBR rates are capped at 80 kb/s per channel whenever the SILK layer can be chosen.",
+        "Decoder clauses are asserted for ample buffers and bitrates AUTO or >= 12 kb/s per channel (recovery: <= 64 kb/s per channel); near-silence is measured inside the DTX part of a gap that opened with >= 60 ms of coded silence; bounds in calib/C20.json (tools/c20_calibrate.py, 12 k schedules, seeds 21-24, 2x margin).",
+    ],
+)
+
+TEXT = dict(
+    technique="stateful property-based testing: generated activity/silence schedules and encoder configurations, oracles on the packet-length / OPUS_GET_IN_DTX sequence and on two lock-step decoders, calibrated energy bounds",
+    level="Exploration. For every generated schedule the encoder clauses (first DTX packet before 200 ms + one frame when the analysis runs, no DTX run reaching 400 ms + one frame, "
+          "OPUS_GET_IN_DTX true on every DTX packet, first active frame after a gap coded normally, no packet <= 2 bytes with DTX off) are decided exactly from the packet sequence; "
+          "decoder clauses (durations, near-silence inside the DTX part of a gap, power recovery afterwards) against calibrated bounds. No claim beyond the sampled schedules.",
+    note="Trusted: engine/rfc_framing.hpp, ASan/UBSan, calib/C20.json. Float build only (the fixed-point gate is complexity >= 10). "
+         "Findings: C20F1 (2-byte fall-back packets with DTX off when the SILK layer overruns a small VBR buffer), observations on starved rates and SILK CBR saturation in replays/C20/.",
+)
